@@ -7,13 +7,13 @@ HERE="$(cd "$(dirname "${BASH_SOURCE[0]}")/.." && pwd)"
 [ -f "$SRC/patch.diff" ] || { echo "no patch in $SRC"; exit 9; }
 WT="$(mktemp -d /tmp/vqe-XXXXXX)"; rmdir "$WT"
 git -C /repo worktree add -q --detach "$WT" HEAD || exit 9
-cleanup() { git -C /repo worktree remove --force "$WT" >/dev/null 2>&1; rm -rf "$WT"; }
+cleanup() { git -C /repo worktree remove --force "$WT" >/dev/null 2>&1; rm -rf "$WT" "$WT.clean.log" "$WT.mut.log"; }
 trap cleanup EXIT
-/venv/bin/python "$SRC/demo.py" "$WT" > /tmp/seed_eval_clean.log 2>&1; rc_clean=$?
+/venv/bin/python "$SRC/demo.py" "$WT" > "$WT.clean.log" 2>&1; rc_clean=$?
 if ! git -C "$WT" apply "$SRC/patch.diff"; then echo "PATCH DOES NOT APPLY to /repo HEAD"; exit 8; fi
-/venv/bin/python "$SRC/demo.py" "$WT" > /tmp/seed_eval_mut.log 2>&1; rc_mut=$?
+/venv/bin/python "$SRC/demo.py" "$WT" > "$WT.mut.log" 2>&1; rc_mut=$?
 echo "demo: unmodified rc=$rc_clean, with patch rc=$rc_mut"
-tail -n 3 /tmp/seed_eval_mut.log | cut -c1-200
+tail -n 3 "$WT.mut.log" | cut -c1-200
 git -C "$WT" checkout -q -- . 
 mkdir -p "$HERE/seeded/$NAME"
 [ "$(realpath "$SRC")" = "$(realpath "$HERE/seeded/$NAME")" ] || cp "$SRC/patch.diff" "$SRC/demo.py" "$HERE/seeded/$NAME/"
